@@ -2,7 +2,7 @@
 # tools/seedrun.sh <ID> <worktree> <first seeded index> : confirm and run the check on every _mut/<i>, save under seeded/<ID>-<n>/
 ID=$1; WT=$2; N=${3:-1}; CHK=${4:-$ID}
 mkdir -p /verif/build/seedlogs
-for d in $WT/_mut/*/; do
+for d in $WT/_mut/[0-9]*/; do
   i=$(basename $d)
   python3 /verif/tools/seedtest.py $CHK $d > /verif/build/seedlogs/${ID}_$N.json 2> /verif/build/seedlogs/${ID}_$N.err
   python3 /verif/tools/seedsave.py $ID $N $d /verif/build/seedlogs/${ID}_$N.json "$5"
